@@ -31,7 +31,7 @@ import ast
 from pathlib import Path
 
 from src.core.base import BaseLintContext, MultiLanguageLintRule
-from src.core.linter_utils import load_linter_config
+from src.core.linter_utils import load_linter_config, project_relative_path
 from src.core.types import Violation
 from src.linter_config.ignore import get_ignore_parser
 
@@ -143,7 +143,8 @@ class MethodPropertyRule(MultiLanguageLintRule):  # thailint: ignore[srp,dry]
         if not context.file_path:
             return False
 
-        file_path = Path(context.file_path)
+        # Ignore patterns name places inside the project, however the path was spelled
+        file_path = Path(project_relative_path(context))
         return any(self._matches_pattern(file_path, pattern) for pattern in config.ignore)
 
     def _matches_pattern(self, file_path: Path, pattern: str) -> bool:
